@@ -10,6 +10,8 @@ git clone -q /verif "$W/verif"
 git -C /repo worktree add -q "$W/repo" -b "work-$N"
 sed -i "s#/repo/#$W/repo/#g" "$W/verif/harness/Cargo.toml"
 sed -i "s#/verif/.build/target#$W/verif/.build/target#" "$W/verif/harness/.cargo/config.toml"
-git -C "$W/verif" update-index --assume-unchanged harness/Cargo.toml harness/.cargo/config.toml
+sed -i "s#/repo/#$W/repo/#g" "$W/verif/harness-pl/Cargo.toml"
+sed -i "s#/verif/#$W/verif/#g" "$W/verif/harness-pl/Cargo.toml" "$W/verif/harness-pl/.cargo/config.toml"
+git -C "$W/verif" update-index --assume-unchanged harness/Cargo.toml harness/.cargo/config.toml harness-pl/Cargo.toml harness-pl/.cargo/config.toml
 git -C "$W/verif" config user.name builder; git -C "$W/verif" config user.email builder@example.com
 echo "$W ready"
